@@ -532,6 +532,7 @@ def check_C04(run):
 
 def check_C09(run):
     lexer_check(run, "C09", O.c09, 3000, 80000,
+                extra_inputs=lambda rng, run: gen.speculative_error_stream(rng.fork("spec"), tier_n(run, 6000, 120000)),
                 premise=({"err_ok": "true"}, "an error survived a rollback or a prepared error was emitted out of order in the model run (monitor g_err_ok)"))
     run.assumptions += ["C09_error_offsets is proved for every program; anchoring of last_token in the final stream and the missing-symbol/virtual-token pairing are tested by the oracle and monitored (g_err_ok), not proved"]
 
